@@ -276,6 +276,7 @@ def dfa_isomorphic1(D1: DFA, D2: DFA) -> bool:
     F2 = D2.F
 
     matching = {}
+    inverse = {}
     todo = {(D1.q0, D2.q0)}
 
     while len(todo) > 0:
@@ -283,13 +284,16 @@ def dfa_isomorphic1(D1: DFA, D2: DFA) -> bool:
         todo.remove((q1, q2))
         if (q1 in F1) != (q2 in F2):
             return False
+        if matching.get(q1, q2) != q2 or inverse.get(q2, q1) != q1:
+            return False
         matching[q1] = q2
+        inverse[q2] = q1
         for a in Sigma:
             q1_ = D1.delta[q1, a]
             q2_ = D2.delta[q2, a]
-            if q1_ not in matching:
+            if q1_ not in matching and q2_ not in inverse:
                 todo.add((q1_, q2_))
-            elif q2_ != matching[q1_]:
+            elif matching.get(q1_) != q2_ or inverse.get(q2_) != q1_:
                 return False
 
     return True
